@@ -218,6 +218,40 @@ def mix_rewrites(p, accepted):
     return out
 
 
+def order_family():
+    """generic classes (1 and 2 type parameters) whose members come in EVERY order: methods using the
+    class's type parameters, static functions with their own type parameters (as many as the class /
+    more / fewer; same and different names), a static function without any, a method with its own
+    type parameter. Verdict and output must not depend on the order of the members."""
+    import itertools
+    groups = []
+    one = {"get": "  method get(): T = this.v",
+           "of": "  function <A> of(a: A): Bx1<A> = Bx1.init(a)",
+           "same": "  function <T> same(a: T): Bx1<T> = Bx1.init(a)",
+           "two": "  function <A, B> two(a: A, b: B): A = a",
+           "zero": "  function zero(): int = 0",
+           "map": "  method <B> map(f: (T) -> B): B = f(this.v)"}
+    for gi, names in enumerate((["get", "of", "zero", "map"], ["of", "get", "same", "two"])):
+        for perm in itertools.permutations(names):
+            text = "class Bx1<T>(val v: T) {\n" + "\n".join(one[n] for n in perm) + "\n}"
+            use = ("Bx1.of(v0).get()" if "of" in perm else "Bx1.init(v0).get()") + " + Bx1.init(1).get()"
+            groups.append(("bx1-%d" % gi, "/".join(perm), [("Bx1", text)], use))
+    two = {"fst": "  method fst(): T = this.a",
+           "snd": "  method snd(): U = this.b",
+           "mk": "  function <A, B> mk(a: A, b: B): Pr2<A, B> = Pr2.init(a, b)",
+           "one": "  function <A> one(a: A): A = a"}
+    for perm in itertools.permutations(["fst", "mk", "one", "snd"]):
+        text = "class Pr2<T, U>(val a: T, val b: U) {\n" + "\n".join(two[n] for n in perm) + "\n}"
+        groups.append(("pr2", "/".join(perm), [("Pr2", text)], "Pr2.mk(v0, true).fst() + Pr2.one(2)"))
+    out = []
+    for group, order, extra, use in groups:
+        p = scopegen.path_program(("order-" + group + "-" + order, "accepted", [scopegen._let("t1", use)], extra, ""))
+        p["funs"][0]["body"] = ("block", [scopegen._let("t1", use)], ("var", "t1"))
+        p["order_group"] = group
+        out.append(p)
+    return out
+
+
 def matches_finding(ctx, kind, detail):
     for f in ctx.open_findings:
         sig = f.get("signature", "")
@@ -317,6 +351,7 @@ def run(ctx):
         p = scopegen.gen_program(rng.fork(), broken)
         progs.append(p)
         texts.append(scopegen.render(p)["Main"])
+    texts += [scopegen.render(p)["Main"] for p in order_family()]     # member-order family: also through the ssa tie and the parser walkers
     base = list(texts)
     for t in base[: ctx.scale(120, 2000)]:
         texts += scope_mutants(rng, t)
@@ -339,6 +374,10 @@ def run(ctx):
     for t, a in ssa_other:
         if a.startswith("locinv"):
             ctx.violation("the parser builds an `E::LocalId` whose expression location differs from its identifier's location (every position-based query and the renamer rely on the two being equal): " + a[7:160],
+                          {"protocol": "ssa", "module": t, "impl": a})
+            break
+        if a.startswith("tpinv"):
+            ctx.violation("the parser classifies an annotation identifier against the scoping rule of type parameters (a class's type parameters are in scope in its header and methods, a member's own in that member; static functions see only their own): " + a[6:200],
                           {"protocol": "ssa", "module": t, "impl": a})
             break
         if a.startswith("panic") or a.startswith("<"):
@@ -413,6 +452,24 @@ def run(ctx):
     hist["programs"] = len(progs)
     hist["programs_deterministic_family"] = len(progs) - nrandom
     hist["programs_path_family"] = len(path_fam)
+    # ---------- member order: every permutation of the members of a generic class
+    ofam = order_family()
+    overd = run_impl_parallel(["check " + hexs(json.dumps(scopegen.render(p))) for p in ofam])
+    hist["order_family_programs"] = len(ofam)
+    by_group = {}
+    for p, v in zip(ofam, overd):
+        by_group.setdefault(p["order_group"], []).append((p, v))
+    for grp, items in sorted(by_group.items()):
+        acc = [x for x in items if x[1].startswith("accepted")]
+        rej = [x for x in items if not x[1].startswith("accepted")]
+        if acc and rej:
+            ctx.violation("reordering the members of a class changes the verdict: %s is accepted, %s is %s" %
+                          (acc[0][0]["path"][0], rej[0][0]["path"][0], rej[0][1][:60]),
+                          {"rewrite": "reorder-members", "original": scopegen.render(acc[0][0]), "rewritten": scopegen.render(rej[0][0]),
+                           "verdict_original": acc[0][1], "verdict_rewritten": rej[0][1]})
+        elif rej:
+            ctx.violation("member-order family: every order of %s is rejected (%s); the family no longer type-checks" % (grp, rej[0][1][:60]),
+                          {"family": "order", "sources": scopegen.render(rej[0][0]), "verdict": rej[0][1]}, no_input=True)
     hist["programs_accepted"] = sum(1 for v in verdicts if v.startswith("accepted"))
     hist["programs_rejected"] = sum(1 for v in verdicts if v.startswith("rejected"))
     hist["rewrite_instances"] = {}
@@ -480,6 +537,21 @@ def run(ctx):
                 ctx.violation(f"rewrite `{kind}` changes the behaviour of an accepted program: {orig[pi]} -> {key}",
                               {"rewrite": kind, "original": scopegen.render(progs[pi]), "rewritten": scopegen.render(q),
                                "behaviour_original": orig[pi], "behaviour_rewritten": key})
+        # member-order family: the output must not depend on the order of the members
+        oouts = common.exec_programs([{"sources": scopegen.render(p), "entry": "Main", "std": True, "ts": False,
+                                       "timeout_ms": 10000} for p in ofam])
+        first = {}
+        for p, o in zip(ofam, oouts):
+            key = (o["compile"], tuple((o.get("wasm") or {}).get("lines", [])), (o.get("wasm") or {}).get("end"))
+            if key[2] == "no-node":
+                continue
+            beh["compared"] += 1
+            g0 = first.setdefault(p["order_group"], (p, key))
+            if g0[1] != key and "beh-order" not in reported:
+                reported.add("beh-order")
+                ctx.violation(f"reordering the members of a class changes the behaviour: {g0[1]} -> {key}",
+                              {"rewrite": "reorder-members", "original": scopegen.render(g0[0]), "rewritten": scopegen.render(p),
+                               "behaviour_original": g0[1], "behaviour_rewritten": key})
     except Exception as ex:  # oracle unavailable: say so, keep the other legs
         beh["error"] = repr(ex)[:200]
     hist["behaviour"] = beh
